@@ -114,11 +114,11 @@ def _worker(spec):
         elif r.res == -1:
             out['viol'].append((['input:' + common.sha(g.key(), d, str(r.mode))[:16], 'site:parse@exception'], 'grammar %s input %r mode %d: parse threw %s' % (g.text(), d[:80], r.mode, r.extra[:100]),
                                 {'grammar': g.to_json(), 'input': d[:4000].hex(), 'mode': r.mode}))
-        if r.mode == 4:
+        if r.mode in (4, 10):
             C['dereferences_watched'] += max(0, r.cb[0])
             if r.cb[1] or r.cb[2] or r.cb[3]:
-                out['viol'].append((['input:' + common.sha(g.key(), d, '4')[:16]], 'grammar %s input %r: the bounds-monitoring buffer saw %d reads outside [begin,end), %d out-of-range iterators, %d bad views (%s)' % (
-                    g.text(), d[:80], r.cb[1], r.cb[2], r.cb[3], r.extra[:80]), {'grammar': g.to_json(), 'input': d[:4000].hex(), 'mode': 4}))
+                out['viol'].append((['input:' + common.sha(g.key(), d, '4')[:16]], 'grammar %s input %r mode %d: the bounds-monitoring buffer saw %d reads outside [begin,end), %d out-of-range iterators, %d bad views (%s)' % (
+                    g.text(), d[:80], r.mode, r.cb[1], r.cb[2], r.cb[3], r.extra[:80]), {'grammar': g.to_json(), 'input': d[:4000].hex(), 'mode': r.mode}))
         if r.objs_alive != 0:
             out['viol'].append((['input:' + common.sha(g.key(), d, str(r.mode))[:16]], 'grammar %s input %r: %d tracked objects alive after the parse' % (g.text(), d[:80], r.objs_alive), {'grammar': g.to_json(), 'input': d[:4000].hex()}))
     if gs and not out['samples']:
